@@ -161,7 +161,9 @@ func fineSig(a, b *hv) string {
 // names the innermost construct that fails rather than whatever contains it.
 func culprit(a, b *hv, bad func(ka, kb *hv) bool) (*hv, *hv) {
 	for depth := 0; depth < 50; depth++ {
-		if len(a.kids) == 0 || a.o.K != b.o.K || len(a.kids) != len(b.kids) {
+		// (a proper and a dotted list of one length are walked element by element
+		// by the real predicates too: same group is enough to descend)
+		if len(a.kids) == 0 || (a.o.K != b.o.K && !(group(a.o.K) == "list" && group(b.o.K) == "list")) || len(a.kids) != len(b.kids) {
 			return a, b
 		}
 		found := false
@@ -239,6 +241,7 @@ func (m *matrix) judgeRow(i int) {
 	} else if hi.odd != "" {
 		x.Fail("sxhash fail=bad-code kind="+a.o.K, "(sxhash %s): %s", a.o.Text(), hi.odd)
 	}
+	m.judgeRoutes(a)
 	for j, b := range m.objs {
 		for pi, p := range preds {
 			o := ri[j][pi]
@@ -250,7 +253,9 @@ func (m *matrix) judgeRow(i int) {
 					k = "internal"
 				}
 				x.Cover("outcome:error")
-				x.Fail(fmt.Sprintf("pred=%s fail=%s x=%s", p, k, group(a.o.K)), "(%s %s %s) => %s", p, a.o.Text(), b.o.Text(), fmtErr(o.err))
+				ca, cb := culprit(a, b, func(ka, kb *hv) bool { return apply1(p, ka.obj, kb.obj).err != nil })
+				x.Fail(fmt.Sprintf("pred=%s fail=%s at=%s", p, k, fineSig(ca, cb)), "(%s %s %s) => %s [innermost pair that fails on its own: %s , %s]", p, a.o.Text(), b.o.Text(), fmtErr(o.err),
+					ca.o.Text(), cb.o.Text())
 				continue
 			case o.odd != "":
 				x.Fail(fmt.Sprintf("pred=%s fail=non-boolean", p), "(%s %s %s) => %s", p, a.o.Text(), b.o.Text(), o.odd)
@@ -270,7 +275,13 @@ func (m *matrix) judgeRow(i int) {
 						so := apply1(p, ka.obj, kb.obj)
 						return so.ok() && so.val != (want == fT)
 					})
-					x.Fail(fmt.Sprintf("pred=%s fail=wrong-truth want=%s at=%s", p, want, fineSig(ca, cb)),
+					why := ""
+					if want == fF {
+						if w := whyNot(ca, cb, p == "equalp"); w != "" {
+							why = " why=" + w
+						}
+					}
+					x.Fail(fmt.Sprintf("pred=%s fail=wrong-truth want=%s at=%s%s", p, want, fineSig(ca, cb), why),
 						"(%s %s %s) => %v, the documented definition gives %s [innermost disagreeing pair: %s , %s]", p, a.o.Text(), b.o.Text(), o.val, want,
 						ca.o.Text(), cb.o.Text())
 				}
@@ -279,6 +290,9 @@ func (m *matrix) judgeRow(i int) {
 				x.Cover("true:" + p)
 			}
 			// reflexive
+			if i == j {
+				x.Cover("reflexivity-checked:" + p)
+			}
 			if i == j && !o.val {
 				x.Fail(fmt.Sprintf("rel=reflexive pred=%s kind=%s", p, a.o.K), "(%s x x) is nil for x = %s", p, a.o.Text())
 			}
@@ -339,6 +353,76 @@ func (m *matrix) judgeRow(i int) {
 				}
 			}
 		}
+	}
+}
+
+// routes by which an object comes back as the very object it was: out of a
+// fresh list, vector, array, hash table and instance, through a function call,
+// values, and a second variable.
+var routes = []struct{ name, src string }{
+	{"list", "(car (list a))"},
+	{"nth", "(nth 1 (list 0 a))"},
+	{"vector", "(svref (vector a) 0)"},
+	{"array", "(aref (make-array 1 :initial-element a) 0)"},
+	{"hash-table", "(let ((h (make-hash-table))) (setf (gethash 1 h) a) (gethash 1 h))"},
+	{"instance", "(slot-value (make-instance (quote c16-k) :v a) (quote v))"},
+	{"funcall", "(funcall (lambda (y) y) a)"},
+	{"values", "(values a)"},
+	{"variable", "(let ((b a)) b)"},
+}
+
+var routesSrc = func() string {
+	var b strings.Builder
+	b.WriteString("(list")
+	for _, r := range routes {
+		b.WriteString(" (let ((r " + r.src + ")) (list (eq a r) (eql a r) (equal a r) (equalp a r)))")
+	}
+	b.WriteString(")")
+	return b.String()
+}()
+
+// judgeRoutes: the same object reached through another route is eq to itself
+// (eql for numbers and characters, for which the language leaves eq open).
+func (m *matrix) judgeRoutes(a *hv) {
+	x := m.x
+	scope := slip.NewScope()
+	scope.Let(symA, a.obj)
+	res, err := sl.Eval(scope, routesSrc)
+	if err != nil {
+		// which route fails is found one by one
+		for _, r := range routes {
+			if _, e := sl.Eval(scope, r.src); e != nil {
+				k := "error"
+				if e.Internal {
+					k = "internal"
+				}
+				x.Fail(fmt.Sprintf("route fail=%s via=%s kind=%s", k, r.name, a.o.K), "with a = %s: %s => %s", a.o.Text(), r.src, fmtErr(e))
+				return
+			}
+		}
+		return // a predicate failed: reported by the pair monitors
+	}
+	l, _ := res.(slip.List)
+	if len(l) != len(routes) {
+		return
+	}
+	first := 0
+	if g := group(a.o.K); g == "num" || g == "char" {
+		first = 1
+	}
+	for ri, e := range l {
+		vals, _ := e.(slip.List)
+		if len(vals) != 4 {
+			continue
+		}
+		for pi := first; pi < 4; pi++ {
+			x.Cover("route-identity-checked:" + preds[pi])
+			if v, isBool := truth(vals[pi]); isBool && !v {
+				x.Fail(fmt.Sprintf("route-identity kind=%s pred=%s via=%s", a.o.K, preds[pi], routes[ri].name),
+					"with a = %s: (%s a %s) => nil, the object is not %s to itself once it went through that route", a.o.Text(), preds[pi], routes[ri].src, preds[pi])
+			}
+		}
+		x.Cover("route:" + routes[ri].name)
 	}
 }
 
